@@ -64,6 +64,9 @@ Proof.
   destruct Hs as (S1 & S2 & S3 & S4 & S5 & S6 & S7 & S8 & S9).
   assert (Hold : e_oldy e2 = e_nexty e) by (rewrite S6, A7; reflexivity).
   assert (Hy2 : e_y2 e2 = e_y2 e) by (rewrite S2, A4; reflexivity).
+  assert (Hfin : e_err e2 = false /\ 0 <= e_count e2 <= 63 /\ e_shift e2 = e_shift e /\ e_wind e2 = e_wind e).
+  { rewrite S4, A6, S5, S3, A5, S7, A8. unfold cinv in Hc. cbn [e0 e_err e_count e_shift e_wind] in *. repeat split; try assumption; lia. }
+  destruct Hfin as (F1 & F2 & F3 & F4).
   destruct (cury + 1 <? e_y2 e2) eqn:Ey.
   - unfold div_fixed16_fixed16.
     assert (Hne : e_nexty e2 - e_oldy e2 <> 0).
@@ -71,12 +74,8 @@ Proof.
       - rewrite (S8 Z0). lia.
       - destruct (Z.eq_dec (e_count e1) 0) as [Z0|NZ]; [rewrite (S8 Z0); lia|rewrite (S9 NZ); lia]. }
     replace (e_nexty e2 - e_oldy e2 =? 0) with false by lia.
-    assert (Hfin : e_err e2 = false /\ 0 <= e_count e2 <= 63 /\ e_shift e2 = e_shift e /\ e_wind e2 = e_wind e).
-    { rewrite S4, A6, S5, S3, A5, S7, A8. unfold cinv in Hc. cbn [e0 e_err e_count e_shift e_wind] in *. repeat split; try assumption; lia. }
-    cbn. repeat split; try congruence; unfold cinv; cbn; try tauto; try lia.
-  - assert (Hfin : e_err e2 = false /\ 0 <= e_count e2 <= 63 /\ e_shift e2 = e_shift e /\ e_wind e2 = e_wind e).
-    { rewrite S4, A6, S5, S3, A5, S7, A8. unfold cinv in Hc. cbn [e0 e_err e_count e_shift e_wind] in *. repeat split; try assumption; lia. }
-    cbn. repeat split; try congruence; unfold cinv; cbn; try tauto; try lia.
+    cbv beta iota zeta. cbn [e_err e_count e_y2 e_shift e_wind]. unfold cinv. cbn [e_count]. repeat split; try assumption; try congruence; lia.
+  - unfold with_fullx. cbn [e_err e_count e_y2 e_shift e_wind]. unfold cinv. cbn [e_count]. repeat split; try assumption; try congruence; lia.
 Qed.
 
 Lemma with_fullx_fields e f : e_err (with_fullx e f) = e_err e /\ e_count (with_fullx e f) = e_count e /\ e_y2 (with_fullx e f) = e_y2 e /\
